@@ -270,10 +270,17 @@ def drive_server(item):
         tasks = rep[0]["tasks"] if ok else {}
         return {"e": "ReqStates", "reply": tasks if ok else {"0": "NO-REPLY"}, "count": len(tasks) if ok else -1, "obs": run.observe()}
 
+    from .common import GwfTimeout, time_limit
+
+    hung = False
+    current = [None]
+    tl = time_limit(2)
     try:
+      with tl:
         for e in list(scn["ev"]) + [{"e": "Enqueue", "deps": [], "limit": 0, "attrs": [], "fresh": True}, {"e": "States"}]:
             kind = e["e"]
             rec = None
+            current[0] = e
             if kind == "Enqueue":
                 c = Conn(run, server) if e.get("fresh") else hc()
                 deps = sorted(d for d in e["deps"] if d < run.n)
@@ -324,17 +331,34 @@ def drive_server(item):
                     run.n += 1
             elif kind in ("Exit", "Tick"):
                 rec = run.apply(e)
+            if tl.fired:
+                raise GwfTimeout("swallowed by the code under test")
             if rec is not None:
                 rec["obs"] = run.observe()
                 events.append(rec)
         for _ in range(200):
+            if tl.fired:
+                raise GwfTimeout("swallowed by the code under test")
             alive = [t for t, p in run.procs.items() if p.returncode is None]
             rec = run.apply({"e": "Exit", "t": alive[0], "rc": 0}) if alive else run.apply({"e": "Tick"})
             if rec is None:
                 break
             events.append(rec)
         events.append(states_event())
-        logs = {str(t): "ok" for t in range(run.n)}
+        if tl.fired:
+            raise GwfTimeout("swallowed by the code under test")
+    except GwfTimeout:
+        # the pool's event loop never became idle again (e.g. a connection handler spinning on EOF):
+        # record an observation no specification state can match
+        hung = True
+        cur = current[0] or {}
+        events.append({"e": "Bad", "kind": cur.get("kind", cur.get("e", "?")), "hung_event_loop": True,
+                       "obs": {"n": -1, "now": -1, "states": {}, "live": [], "spawned": []}})
     finally:
-        run.close()
-    return {"id": rid, "cores": scn["cores"], "events": events, "logs": logs, "server": True}
+        logs = {str(t): "ok" for t in range(run.n)}
+        try:
+            with time_limit(5):
+                run.close()
+        except BaseException:  # noqa: BLE001
+            pass
+    return {"id": rid, "cores": scn["cores"], "events": events, "logs": logs, "server": True, "hung": hung}
